@@ -244,6 +244,12 @@ def main(tier):
                 key = "accepted/" + "+".join(sorted(info))
             chk.fail(key, "reference says error (%s) but loader accepted: %s" % (sorted(info), json.dumps(desc)),
                      {"config": desc, "expected": "error " + str(sorted(info)), "result": res})
+        elif verdict == "error" and res.get("stage") != "load":
+            # all model files are valid, so a cycle / conflict / too-deep chain must be reported by the loader itself,
+            # not surface later as an unrelated validation error (e.g. "type not recognized" after a package was dropped)
+            chk.fail("not-reported-by-loader/" + "+".join(sorted(info)),
+                     "reference says %s but the loader accepted the graph; only a later stage failed: %r: %s" % (sorted(info), res.get("err"), json.dumps(desc)),
+                     {"config": desc, "expected": "loader error " + str(sorted(info)), "result": res})
         elif verdict == "ok" and got_err:
             chk.fail("rejected/valid-graph", "reference says ok but loader reported %r: %s" % (res["err"], json.dumps(desc)),
                      {"config": desc, "expected": "ok", "result": res})
